@@ -85,6 +85,8 @@ pub mod ssri {
         ensures #[trigger] parse_integrity("sha1-deadbeef"@) is Some
     {}
 
+    pub broadcast group group_ssri_axioms { axiom_parse_display, axiom_parse_deadbeef }
+
     #[verifier::external_body]
     pub struct IntegrityChecker { i: u8 }
     pub struct CheckerV { pub sri: SriV, pub fed: Seq<u8> }
